@@ -33,6 +33,8 @@ def parse(prog):
         items.append(('T',))
       elif k == 'K':
         items.append(('K', op['s']))
+      elif k == 'N':
+        items.append(('N',))
     return tuple(items), False
   return body()[0]
 
@@ -77,6 +79,12 @@ def run_items(mdl, items):
       obs.append(jnp.asarray(bool(mdl.sow(item[1], 's', jnp.asarray(1, jnp.int32)))))
     elif k == 'T':
       obs.append(jnp.asarray(mdl.perturb('t', jnp.asarray(5, jnp.int32)), jnp.int32))
+    elif k == 'N':
+      import dsl_linen
+      y, st = dsl_linen.TEACHER.apply({'params': {'w': jnp.asarray(3, jnp.int32)}}, mutable=['intermediates'])
+      n = len(jax.tree_util.tree_leaves(st))
+      obs.append(jnp.asarray(n, jnp.int32))
+      acc = acc * 31 + jnp.asarray(n, jnp.uint32) + jnp.asarray(y, jnp.uint32)
     elif k == 'K':
       key = mdl.make_rng(item[1])
       kd = jnp.asarray(jax.random.key_data(key), jnp.uint32).reshape(-1)[:2]
@@ -143,6 +151,8 @@ def obs_kinds(prog_items, out=None):
       out.append('map')
     elif k == 'S':
       out.append('bool')
+    elif k == 'N':
+      out.append('nested')
     elif k == 'K':
       out.append('key')
     elif k == 'E':
